@@ -762,6 +762,23 @@ static int op_desc(const char* hex, const char* markhex) {
   return 1;
 }
 
+/* LOADBIG <hex> <total>: the item at the front of a window of <total> bytes (anonymous zero pages, never touched beyond the item: what follows it are
+   encodings of the integer 0)  ->  "OK <tree> read=<n>" | "ERR <code> pos=<p>" | "no-map" */
+#include <sys/mman.h>
+static int op_loadbig(const char* hex, unsigned long long total) {
+  unsigned char tmp[4096]; size_t n = hex[0] == '-' ? 0 : hex_decode(hex, tmp, sizeof tmp);
+  if (total < n) total = n;
+  unsigned char* w = mmap(NULL, total ? total : 1, PROT_READ | PROT_WRITE, MAP_PRIVATE | MAP_ANONYMOUS | MAP_NORESERVE, -1, 0);
+  if (w == MAP_FAILED) { printf("no-map\n"); return 1; }
+  memcpy(w, tmp, n);
+  struct cbor_load_result res; memset(&res, 0xAB, sizeof res);
+  cbor_item_t* it = cbor_load(w, total, &res);
+  if (!it) printf("ERR %s pos=%zu\n", err_name(res.error.code), res.error.position);
+  else { struct sb s = {0}; print_item(&s, it, NULL, 0); printf("OK %s read=%zu\n", s.p, res.read); free(s.p); cbor_decref(&it); }
+  munmap(w, total ? total : 1);
+  return 1;
+}
+
 int hist_op(int argc, char** w);
 
 int tree_op(int argc, char** w) {
@@ -786,5 +803,6 @@ int tree_op(int argc, char** w) {
   if (argc == 2 && !strcmp(w[0], "FLTGET")) return op_fltget(w[1]);
   if (argc == 3 && !strcmp(w[0], "MAPKV")) return op_mapkv(atoi(w[1]), w[2]);
   if (argc == 3 && !strcmp(w[0], "DESC")) return op_desc(w[1], w[2]);
+  if (argc == 3 && !strcmp(w[0], "LOADBIG")) return op_loadbig(w[1], strtoull(w[2], 0, 10));
   return hist_op(argc, w);
 }
